@@ -51,6 +51,13 @@ func NewWarmUpTrafficShapingCalculator(owner *TrafficShapingController, rule *Ru
 	maxToken := warningToken + uint64(2*float64(rule.WarmUpPeriodSec)*rule.Threshold/float64(1.0+rule.WarmUpColdFactor))
 
 	slope := float64(rule.WarmUpColdFactor-1.0) / rule.Threshold / float64(maxToken-warningToken)
+	if maxToken == warningToken {
+		// With a small threshold and period there is no room between the warning line and the maximum.
+		// The division above then yields +Inf (or NaN) and CalculateAllowedTokens would return NaN,
+		// which compares false with everything and lets every request pass. Without a warm-up range
+		// the allowed tokens simply equal the threshold.
+		slope = 0
+	}
 
 	warmUpTrafficShapingCalculator := &WarmUpTrafficShapingCalculator{
 		owner:             owner,
